@@ -4,7 +4,7 @@ import tarfile
 
 import numpy as np
 
-from .. import gens
+from .. import gens, hist_stale
 from ..common import Result
 from ..monitors import bits_equal, check_array_disk, describe, same_dtype, snapshot, snapdiff
 
@@ -49,6 +49,15 @@ def cases(tier, seed):
         yield {'t': 'rcopy', 'numtype': nt, 'bo': bo, 'pattern': pat, 'atom': list([(), (2,), (1, 2)][k % 3]),
                'dtypearg': [None, 'other', 'swap'][k % 3], 'accessmode': ['r', 'r+'][k % 2], 'md': k % 2 == 0,
                'mutate': ['src', 'copy'][(k // 2) % 2], 'k': k, 'over': [None, None, 'ragged_md', 'ragged_nomd'][k % 4]}
+    # copies made through a handle whose array was changed by other means (by path, second handle, re-creation)
+    for c in hist_stale.array_cases(random.Random(f'C15:{seed}:stale'), 150 if tier == 'quick' else 2000, seed,
+                                    hops=['h:copy', 'h:copy', 'h:read', 'h:app']):
+        c['t'] = 'stale'
+        yield c
+    for c in hist_stale.ragged_cases(random.Random(f'C15:{seed}:rstale'), 120 if tier == 'quick' else 1500, seed,
+                                     hops=['h:copy', 'h:copy', 'h:iter', 'h:app']):
+        c['t'] = 'rstale'
+        yield c
     for comp in ('xz', 'gz', 'bz2'):
         for kind in ('Array', 'RaggedArray', 'ArrayEmpty', 'RaggedNoSub'):
             for given in (False, True):
@@ -71,6 +80,16 @@ def target_dtype(rng, src, how):
 
 def run_case(case, env):
     res = Result()
+    if case['t'] == 'rstale':
+        hist_stale.run_ragged(env, res, case)
+        res.sig = hist_stale.sig_of(case)
+        res.dim('case_type', 'ragged copy through a stale handle')
+        return res
+    if case['t'] == 'stale':
+        hist_stale.run_array(env, res, case)
+        res.sig = hist_stale.sig_of(case)
+        res.dim('case_type', 'copy through a stale handle')
+        return res
     d = env.scratch.new('y')
     try:
         {'copy': run_copy, 'rcopy': run_rcopy, 'archive': run_archive}[case['t']](case, env, res, d)
